@@ -22,7 +22,7 @@ DRIVER = 'Driver/C02.lean'
 REQUIRED_THEOREMS = ['CfVerif.C02.' + n for n in (
     'trace_wf', 'connected_only_when_tables_complete', 'fully_only_when_all_values', 'sync_open_returns',
     'fault_reaches_disconnected', 'link_error_outputs', 'fault_inside_open_link', 'sync_open_raises_on_fault_inside_open_link',
-    'reconnectable', 'handshake_completes', 'repaired_D1', 'repaired_D21',
+    'reconnectable', 'handshake_completes', 'in_callback_action', 'repaired_D26', 'late_first_packet_cb_counterexample', 'aborted_fetcher_cannot_finish', 'aborted_fetcher_counterexample', 'repaired_D1', 'repaired_D21',
     'sync_open_hangs_counterexample', 'stale_fetcher_counterexample',
     'M2.repaired_D2_D3_D4_D22', 'M2.no_thread_death', 'M2.no_deadlock', 'M2.disconnected_in_bounded_steps',
     'M2.send_lock_deadlock_counterexample', 'M2.ping_self_join_counterexample', 'M2.dispatcher_death_counterexample',
@@ -38,7 +38,9 @@ ASSUMPTIONS = ['usage: one user thread; open_link only when no link is open or t
                'M2: one link error per scenario; every interleaving of the threads of a scenario (<= 5 active threads), not of all six at once; '
                'atomicity at the level of sync operations and the reads of cf.link',
                'outside: retry timers (C10), duplicated / stale replies (C03), TOC cache hits (C11), 1-wire memories, user callbacks that raise']
-RULE = ('M1: op scripts on the real Crazyflie+SyncCrazyflie against the simulated device: fault INSIDE open_link (error callback while '
+RULE = ('M1: op scripts on the real Crazyflie+SyncCrazyflie against the simulated device: close_link / link error from INSIDE an '
+        'all-packet or port callback of the incoming thread during the dispatch of the k-th packet for EVERY k (after the '
+        'dispatcher\'s snapshot, before the fetchers\' callbacks); fault INSIDE open_link (error callback while '
         'get_link_driver()/connect() has not returned) and fault (driver thread / sending thread / close / '
         'blocking close) after the k-th pump step for EVERY k >= 0 of the handshake x plain / blocking open x 4-7 devices, each followed by a '
         'second attempt on the same object, no-driver / raising-driver attempts, and random connect/disconnect histories; compared per '
@@ -179,7 +181,11 @@ def extract(ctx):
                                      and any(ast.unparse(t) == 'self.state' for t in n.targets)}))
     g.strings('closeGuards', [ast.unparse(s.test) for s in _stmts(cl) if isinstance(s, ast.If)])
     ip = X.find(C, '_check_for_initial_packet_cb')
-    g.strings('firstPacketSeq', [ast.unparse(s) for s in _stmts(ip)])
+    ip_body = _stmts(ip)
+    guard = bool(ip_body) and isinstance(ip_body[0], ast.If) and ast.unparse(ip_body[0].test) in ('self.link is None', 'not self.link') \
+        and isinstance(ip_body[0].body[-1], ast.Return) and not ip_body[0].orelse
+    g.raw('def firstPacketCbChecksLink : Bool := ' + _bool(guard))
+    g.strings('firstPacketSeq', [ast.unparse(s) for s in (ip_body[1:] if guard else ip_body)])
     ctor = X.find(C, '__init__')
     g.strings('ctorPacketReceivedCbs', [ast.unparse(n.args[0]) for n in ast.walk(ctor) if isinstance(n, ast.Call)
                                         and ast.unparse(n.func) == 'self.packet_received.add_callback'])
@@ -248,10 +254,63 @@ def extract(ctx):
     # -- TOC fetcher / memories / parameters: loop conditions and abort-on-disconnect (D21) -----------------------------
     tf = X.find(X.parse(F_TOC), 'TocFetcher')
     g.strings('tocCompares', [c for c in X.compares(X.find(tf, '_new_packet_cb')) if 'nbr_of_items' in c or 'requested_index' in c])
+    def method(cls, name):
+        for n in cls.body:
+            if isinstance(n, ast.FunctionDef) and n.name == name:
+                return n
+        return None
+
+    def unguarded_stmts(cls, fn, depth=2):
+        """simple statements that run unconditionally and outside any try block when `fn` is called, in order,
+        following calls of the class's own helper methods (`self.helper()`)"""
+        out = []
+        for st in _stmts(fn):
+            if isinstance(st, (ast.If, ast.Try, ast.For, ast.While, ast.With)):
+                out.append(('compound', ast.unparse(st)))
+                continue
+            txt = ast.unparse(st)
+            callee = None
+            if isinstance(st, ast.Expr) and isinstance(st.value, ast.Call) and isinstance(st.value.func, ast.Attribute) \
+                    and ast.unparse(st.value.func.value) == 'self' and not st.value.args:
+                callee = method(cls, st.value.func.attr)
+            if callee is not None and depth > 0:
+                out += unguarded_stmts(cls, callee, depth - 1)
+            else:
+                out.append(('simple', txt))
+        return out
+
+    def reaches(cls, fn, text, depth=2):
+        """`text` occurs in a statement of fn or of a helper method it calls"""
+        if _has(fn, text):
+            return True
+        if depth > 0:
+            for n in ast.walk(fn):
+                if isinstance(n, ast.Call) and isinstance(n.func, ast.Attribute) and ast.unparse(n.func.value) == 'self':
+                    m = method(cls, n.func.attr)
+                    if m is not None and m is not fn and reaches(cls, m, text, depth - 1):
+                        return True
+        return False
+    disc_cbs = [n for n in tf.body if isinstance(n, ast.FunctionDef) and n.name != '_toc_fetch_finished'
+                and ('self.cf.disconnected.add_callback(self.%s)' % n.name) in ast.unparse(X.find(tf, 'start'))]
     g.raw('def tocFetcherAbortsOnDisconnect : Bool := ' + _bool(
-        _has(X.find(tf, 'start'), 'self.cf.disconnected.add_callback(') and any(
-            isinstance(n, ast.FunctionDef) and _has(n, 'remove_port_callback') and n.name != '_toc_fetch_finished'
-            and ('self.cf.disconnected.add_callback(self.%s)' % n.name) in ast.unparse(X.find(tf, 'start')) for n in tf.body)))
+        _has(X.find(tf, 'start'), 'self.cf.disconnected.add_callback(') and any(reaches(tf, n, 'remove_port_callback') for n in disc_cbs)))
+    # an aborted fetcher is still in the dispatcher's snapshot for the packet being dispatched; what stops it from running
+    # its finished callback: an unconditional, unguarded `disconnected.remove_callback(self.<abort cb>)` (ValueError when
+    # it was already removed by the abort) before `finished_callback()`, or an explicit "aborted" test that returns
+    fin = X.find(tf, '_toc_fetch_finished')
+    before = []
+    for kind, txt in unguarded_stmts(tf, fin):
+        if 'finished_callback(' in txt:
+            break
+        before.append((kind, txt))
+    raises_when_aborted = any(kind == 'simple' and 'self.cf.disconnected.remove_callback(self.' in txt for kind, txt in before)
+
+    def abort_test(fn):
+        body = _stmts(fn)
+        return bool(body) and isinstance(body[0], ast.If) and 'abort' in ast.unparse(body[0].test).lower() \
+            and any(isinstance(x, ast.Return) for x in body[0].body)
+    g.raw('def abortedTocFetcherCannotFinish : Bool := ' + _bool(
+        raises_when_aborted or abort_test(fin) or abort_test(X.find(tf, '_new_packet_cb'))))
     pm = X.parse(F_PARAM)
     ef = X.find(pm, '_ExtendedTypeFetcher')
     ext_abort = False
@@ -399,6 +458,14 @@ class M1Real:
                  'disconnected_link_error': 'disconnected_link_error'}
         for attr, name in names.items():
             getattr(self.cf, attr).add_callback(lambda *a, _n=name: self._out(_n))
+        # the application's own packet callbacks, registered after the object is built (as an application does): the
+        # all-packet one runs after the library's, the port ones after the library's static port callbacks and BEFORE
+        # the fetchers registered during the connection.  They perform the pending in-callback action of a `dact` op.
+        self.pending = None
+        self.strict_usage = True
+        self.cf.packet_received.add_callback(lambda pk: self._user_cb('a'))
+        for port in (15, 13, 5, 4, 2):
+            self.cf.add_port_callback(port, lambda pk: self._user_cb('p'))
         old = scmod.Event
         scmod.Event = PumpEvent
         try:
@@ -416,6 +483,17 @@ class M1Real:
             self.snapshots.append((name, 0 if toc is None else sum(len(g) for g in toc.toc.values()),
                                    sum(len(g) for g in cf.param.toc.toc.values()), sum(len(g) for g in cf.param.values.values())))
         self.cur.append(name)
+
+    def _user_cb(self, pos):
+        if self.pending is None or self.pending[0] != pos:
+            return
+        act = self.pending[1]
+        self.pending = None
+        if act == 'close':
+            self._out('CLOSE-CALLED')
+            self.cf.close_link()
+        elif self.cf.link is not None:
+            self.cf.link.error_cb('simulated error reported from inside a callback')
 
     def _hook_link(self, link):
         runner = self
@@ -469,6 +547,13 @@ class M1Real:
             return self._link_up() and not self._dead()
         if op[0] == 'close':
             return w != 'close'
+        if op[0] == 'dact' and op[1] == 'a' and self.strict_usage:
+            # outside the model (see `allowed` in Model/C02.lean): all-packet position while the log reset ack is dispatched
+            link = self.link
+            if link is not None and self.cf.link is link and not link.closed and link.ready:
+                port, chan, data = link.ready[0]
+                if port == 5 and chan == 1 and data[:1] == b'\x05':
+                    return False
         return True
 
     def _state(self):
@@ -505,7 +590,8 @@ class M1Real:
             self.fail_in_connect = op[1] == 3
             sess.call(cf.open_link, sess.uri if op[1] in (1, 3) else ('bogus://nothing' if op[1] == 0 else 'sim://not-registered'))
             self.fail_in_connect = False
-        elif k == 'deliver':
+        elif k in ('deliver', 'dact'):
+            self.pending = (op[1], op[2]) if k == 'dact' else None
             link = self.link
             if link is not None and cf.link is link and not link.closed and link.ready:
                 with sess._active():
@@ -516,6 +602,7 @@ class M1Real:
                         pass
                     finally:
                         link.budget = None
+            self.pending = None
         elif k == 'work':
             for w in sess.workers:
                 if sess._worker_ready(w):
@@ -623,7 +710,9 @@ class WFTwin:
     def out(self, o):
         if not self.ok:
             return
-        if o == 'LINK-ERROR':
+        if o == 'CLOSE-CALLED':
+            self.expect = ['disconnected'] + self.expect
+        elif o == 'LINK-ERROR':
             if self.ph == 'idle':
                 self._fail('link error reported while no attempt is in progress')
             elif self.ph == 'req':
@@ -725,6 +814,23 @@ def gen_m1_cases(ctx):
                     pre = pump(k)
                     script = [(opener, 1)] + pre + [(fault,)] + pump(2) + [(opener, 1)] + pump(n) + [('close',), ('status',)]
                     cases.append(('fault-at-k', dev, [o for o in script if o[0] != 'status']))
+    # (2a) close / link error from INSIDE a callback of the incoming thread during the dispatch of the k-th packet, for
+    #      EVERY k (sub-packet granularity: after the dispatcher's snapshot, before the fetchers' callbacks)
+    for dev in (devs if thorough else devs[:1] + devs[3:4]):
+        n = handshake_len(dev)
+        for k in range(0, n + 1):
+            for pos in ('a', 'p'):
+                for act in ('close', 'err'):
+                    for opener in ('open', 'sopen'):
+                        if not thorough and opener == 'sopen' and k % 2 == 0 and act == 'err':
+                            continue
+                        cases.append(('in-callback', dev, [(opener, 1)] + pump(k) + [('dact', pos, act)] + pump(2) +
+                                      [(opener, 1)] + pump(n) + [('close',)]))
+                        if k % 3 == 0 or thorough:
+                            # the same position on a LATER connection of the object (the re-registered first-packet callback
+                            # then runs after the application's all-packet callback)
+                            cases.append(('in-callback-2nd', dev, [(opener, 1)] + pump(1 + k % 4) + [('close',), (opener, 1)] + pump(k) +
+                                          [('dact', pos, act)] + pump(2) + [(opener, 1)] + pump(n) + [('close',)]))
     # (2b) fault INSIDE open_link (the error callback runs while get_link_driver()/connect() has not returned), plain and
     #      blocking, followed by: retry at once / retry after close / a stale error report / a second in-connect failure
     for dev in devs[:3]:
@@ -740,20 +846,24 @@ def gen_m1_cases(ctx):
             for bad in (0, 2):
                 cases.append(('no-driver', dev, [(opener, bad), (opener, 1)] + pump(handshake_len(dev)) + [('sclose',), ('close',)]))
     # (4) random connect / disconnect histories
-    weights = [('deliver', 30), ('work', 12), ('err', 3), ('arm', 3), ('close', 4), ('open', 6), ('sopen', 6), ('sclose', 3)]
+    weights = [('deliver', 30), ('work', 12), ('err', 3), ('arm', 3), ('close', 4), ('open', 6), ('sopen', 6), ('sclose', 3), ('dact', 4)]
     bag = [k for k, w in weights for _ in range(w)]
     for _ in range(1500 if thorough else 250):
         dev = (rng.random() < 0.8, rng.choice([0, 1, 2, 4]), rng.choice([0, 1, 3]), tuple(rng.random() < 0.4 for _ in range(rng.choice([0, 1, 2, 3, 5]))))
         script = []
         for _ in range(rng.choice([10, 30, 80, 160])):
             k = rng.choice(bag)
+            if k == 'dact':
+                script.append(('dact', rng.choice('ap'), rng.choice(['close', 'err'])))
+                continue
             script.append((k, 1 if rng.random() < 0.8 else rng.choice([0, 2, 3, 3])) if k in ('open', 'sopen') else (k,))
         cases.append(('history', dev, script))
     return cases
 
 
-def run_m1_case(dev, script):
+def run_m1_case(dev, script, strict_usage=True):
     r = M1Real(dev)
+    r.strict_usage = strict_usage
     executed, out = r.run(script)
     return r, executed, out
 
@@ -856,18 +966,28 @@ def search(ctx):
         for fault in ('err', 'arm', 'close'):
             for opener in ('open', 'sopen'):
                 scripts.append((dev, [(opener, 1)] + pump(k) + [(fault,)] + pump(2) + [(opener, 1)] + pump(n) + [('close',)], (opener, k, fault)))
+    for dv in (dev, (True, 1, 0, (False, False)), (True, 0, 0, ())):
+        for k in range(0, handshake_len(dv) + 1):
+            for pos in ('a', 'p'):
+                for act in ('close', 'err'):
+                    scripts.append((dv, [('open', 1)] + pump(k) + [('dact', pos, act)] + pump(2) + [('open', 1)] + pump(handshake_len(dv)) + [('close',)],
+                                    ('open', k, 'in-callback-%s-%s' % (pos, act))))
+                    if k < 4:
+                        scripts.append((dv, [('open', 1), ('deliver',), ('close',), ('open', 1)] + pump(k) + [('dact', pos, act)] + pump(2) +
+                                        [('open', 1)] + pump(handshake_len(dv)) + [('close',)], ('open', k + 2, 'in-callback-2nd-%s-%s' % (pos, act))))
     for opener in ('open', 'sopen'):
         for tail in ([], [('close',)], [(opener, 3)]):
             scripts.append((dev, [(opener, 3)] + tail + [(opener, 1)] + pump(n) + [('close',)], (opener, 0, 'inside-open-link')))
         scripts.append((dev, [(opener, 1), ('err',), (opener, 1)] + pump(n) + [('close',)], (opener, 0, 'before-first-packet')))
     for (d, script, tag) in scripts:
-        r, executed, out = run_m1_case(d, script)
+        r, executed, out = run_m1_case(d, script, strict_usage=False)
         verdict, why, i = wf_check(executed, out[:-1])
         waiting = out[-1].split('waiting=')[1]
         opener, k, fault = tag
         for (ev, nlog, npar, nval) in r.snapshots:
             if (nlog, npar) != (d[1], len(d[3])) or (ev == 'fully_connected' and nval != len(d[3])):
-                ctx.witness('D21-stale-fetcher-after-aborted-attempt' if k > 0 else 'tables-incomplete-at-connected',
+                ctx.witness(('callback-after-end-of-attempt-' + fault) if fault.startswith('in-callback') else
+                            'D21-stale-fetcher-after-aborted-attempt' if k > 0 else 'tables-incomplete-at-connected',
                             '%s signalled with log=%d/%d param=%d/%d values=%d' % (ev, nlog, d[1], npar, len(d[3]), nval),
                             {'dev': dev_line(d), 'ops': [op_line(o) for o in executed]}, fault_position=k, fault=fault)
         if waiting != 'none':
@@ -880,6 +1000,10 @@ def search(ctx):
             key = 'D21-stale-fetcher-after-aborted-attempt' if i > 2 * k + 2 and stale else 'trace-not-well-formed'
             if fault in ('inside-open-link', 'before-first-packet') and i <= 2:
                 key = 'trace-not-well-formed-fault-' + fault
+            if fault.startswith('in-callback') and i <= 2 * k + 4:
+                key = 'callback-after-end-of-attempt-' + fault
+                if 'link_established' in str(why):
+                    key = 'D26-link-established-after-in-callback-close'
             ctx.witness(key, 'callback trace violates the lifecycle: ' + str(why),
                         {'dev': dev_line(d), 'ops': [op_line(o) for o in executed[:i + 1]]}, fault_position=k, fault=fault)
 
